@@ -272,14 +272,21 @@ func (check typecheck) binaryExpr(n *node) error {
 	}
 
 	// Ensure that if values are untyped, both are converted to the same type
-	_ = check.convertUntyped(c0, c1.typ)
-	_ = check.convertUntyped(c1, c0.typ)
+	err0 := check.convertUntyped(c0, c1.typ)
+	err1 := check.convertUntyped(c1, c0.typ)
 
 	// A constant operand has the precision of the type of the operation.
 	check.roundConst(c0, c1)
 	check.roundConst(c1, c0)
 
 	if isComparisonAction(a) {
+		// An untyped constant operand must be representable in the basic type of the other one.
+		if err0 != nil && isConstType(c1.typ) {
+			return err0
+		}
+		if err1 != nil && isConstType(c0.typ) {
+			return err1
+		}
 		return check.comparison(n)
 	}
 
